@@ -4,7 +4,7 @@
     model of the hand-written splitting algorithm of the condition-tree parser (split_logical_operator /
     parse_when_clause after the repairs listed in known_findings.json).  The regular expressions (rexile) that
     carve a file into rules and a rule into header / when / then are not modelled. *)
-From RRE Require Import Base.Sx Base.Float Base.Num Model.ExprShape Model.Forward Model.ForwardSpec Model.Grl Proofs.GrlProofs.
+From RRE Require Import Base.Sx Base.Float Base.Num Model.ExprShape Model.Forward Model.ForwardSpec Model.Grl Proofs.GrlProofs Proofs.GrlTreeProofs.
 Open Scope Z_scope.
 
 (** String literals are opaque to the condition splitter: whatever stands between two equal quote characters
@@ -35,6 +35,27 @@ Print Assumptions C04_inert_compose.
 Theorem C04_ordinary_text_inert : forall op t, forallb (ordinary op) t = true -> inert op t.
 Proof. exact inert_ordinary. Qed.
 Print Assumptions C04_ordinary_text_inert.
+
+(** The condition-tree parser recovers the written tree.  For EVERY tree of comparisons joined by &&, ||
+    and !( ), printed with a parenthesis pair around every compound operand and with ANY number of redundant
+    parenthesis pairs anywhere (GParen), whose leaves are neutral texts ([leaf_ok]: not blank at either end,
+    not starting with ( or !, copied unchanged by the splitter and by the parenthesis counter), parse_when
+    returns exactly that tree: && binds tighter than ||, parentheses and ! are respected, depth unbounded. *)
+Theorem C04_condition_tree_roundtrip : forall g, wf_g g -> parse_when_text (pr_g g) = skel g.
+Proof. exact parse_when_text_pr. Qed.
+Print Assumptions C04_condition_tree_roundtrip.
+
+(** ... and the leaves of the typed core are such texts: ordinary characters (no quote, parenthesis, & or |),
+    optionally followed by a string literal with ANY content but its own quote character *)
+Theorem C04_plain_leaf_ok : forall t c r c' r', t = c :: r -> rev t = c' :: r' -> forallb ord2 t = true ->
+  ws_unicode c = false -> (c =? 33) = false -> ws_unicode c' = false -> leaf_ok t.
+Proof. exact leaf_ok_plain. Qed.
+Print Assumptions C04_plain_leaf_ok.
+
+Theorem C04_string_leaf_ok : forall a c r q s, a = c :: r -> forallb ord2 a = true -> ws_unicode c = false -> (c =? 33) = false ->
+  ((q =? 34) || (q =? 39)) = true -> memc q s = false -> leaf_ok (a ++ q :: s ++ [q]).
+Proof. exact leaf_ok_string. Qed.
+Print Assumptions C04_string_leaf_ok.
 
 (** non-vacuity: && binds tighter than ||, ! and redundant parentheses are respected, and a string literal
     containing "&&", ")" and "||" stays one literal:
